@@ -264,7 +264,9 @@ def desugar : Node → Option Cmd
         | _, _ => none
       else none
     | .unop op e =>
-      if op == "!" || op == "sizeof" then some (.asgnConst x)
+      if op == "!" || op == "sizeof" then
+        -- the operand's value is not needed, but it must not change anything itself
+        if hasSideEffect e then none else some (.asgnConst x)
       else match e.rmCast with
         | .const .. => if op == "-" || op == "+" then some (.asgnConst x) else none
         | .id y =>
@@ -283,7 +285,7 @@ def desugar : Node → Option Cmd
       if op == "p++" || op == "++" then some (.bin "+" y (.var y) .const)
       else if op == "p--" || op == "--" then some (.bin "-" y (.var y) .const)
       else some .skip
-    | _ => some .skip
+    | r => if hasSideEffect r then none else some .skip
   | .funcCall name _ => if Syntax.isAssertAssume name then some .skip else none
   | .ifs _ t f =>
     match desugarO t, desugarO f with
